@@ -110,6 +110,24 @@ func Explore(sh *Shared, pkg *ssa.Package, fnName string, cfg Config) *Report {
 	if cfg.MaxDepth == 0 {
 		cfg.MaxDepth = 600
 	}
+	// interpret the package initialisers once; every path starts from a deep copy of that state
+	var initGlobals map[*ssa.Global]*value
+	func() {
+		defer func() {
+			if r := recover(); r != nil {
+				initGlobals = nil
+				rep.Undec["package initialisation failed: "+firstLine(panicString(r))]++
+			}
+		}()
+		ti := newInterp(sh)
+		ti.ps = &pathState{ts: newTermStore(), model: map[int]uint64{}, modelOK: true, defined: map[int]bool{}, covers: map[string]bool{},
+			maxSteps: 1 << 40, maxDepth: cfg.MaxDepth, funcs: map[string]bool{}, intr: map[string]int{}}
+		if initFn := pkg.Func("init"); initFn != nil {
+			ti.inInit = true
+			call(ti, nil, token.NoPos, initFn, nil)
+		}
+		initGlobals = ti.globals
+	}()
 	var mu sync.Mutex
 	cond := sync.NewCond(&mu)
 	stack := []workItem{{}}
@@ -148,7 +166,7 @@ func Explore(sh *Shared, pkg *ssa.Package, fnName string, cfg Config) *Report {
 			started++
 			mu.Unlock()
 
-			res := runPath(sh, pkg, fn, it, sv, cfg)
+			res := runPath(sh, pkg, fn, it, sv, cfg, initGlobals)
 
 			mu.Lock()
 			active--
@@ -246,7 +264,7 @@ func newInterp(sh *Shared) *interpreter {
 	}
 }
 
-func runPath(sh *Shared, pkg *ssa.Package, fn *ssa.Function, it workItem, sv *solver, cfg Config) (res pathResult) {
+func runPath(sh *Shared, pkg *ssa.Package, fn *ssa.Function, it workItem, sv *solver, cfg Config, initGlobals map[*ssa.Global]*value) (res pathResult) {
 	i := newInterp(sh)
 	ps := &pathState{ts: newTermStore(), sv: sv, forced: it.prefix, model: map[int]uint64{}, modelOK: true,
 		defined: map[int]bool{}, covers: map[string]bool{}, maxSteps: cfg.MaxSteps, maxDepth: cfg.MaxDepth,
@@ -309,7 +327,9 @@ func runPath(sh *Shared, pkg *ssa.Package, fn *ssa.Function, it workItem, sv *so
 	if len(it.prefix) > 0 && it.model == nil {
 		// no model known for this prefix: path condition is rebuilt during replay
 	}
-	if initFn := pkg.Func("init"); initFn != nil {
+	if initGlobals != nil {
+		i.globals = cloneGlobals(initGlobals)
+	} else if initFn := pkg.Func("init"); initFn != nil {
 		i.inInit = true
 		call(i, nil, token.NoPos, initFn, nil)
 		i.inInit = false
